@@ -97,3 +97,8 @@ add("C12", "exploration", "exception-class oracle at the driver over grammar-awa
     "query, header values and body are produced by grammar-aware mutation of valid values (token surgery, delimiter injection, quote imbalance, 20/400/5000-digit numbers, invalid UTF-8, 28 odd charsets) plus raw "
     "Latin-1 noise and a list of regression seeds; anything that escapes other than a 4xx HTTPException, ClientDisconnect or RuntimeError('Stream consumed') is a violation with its own mechanism key.",
     "Only client-controllable inputs are fuzzed; the environ/scope is built outside the guarded region (a harness encoding problem is a HarnessError, never a violation).")
+add("C04", "exploration", "differential WSGI vs ASGI at the server boundary from one abstract-request mapper: request views field by field (value-or-exception-class) and responses/apps (status, header multiset, body bytes)",
+    "The same abstract case is run against baize.wsgi and baize.asgi: generated requests -> 17 request-view fields; generated recipes of every response class (plus request_response / decorator / middleware "
+    "stacks) x GET/HEAD x Range; Router tables with every convertor, nested Subpaths tables and Hosts tables with echoing leaves; Files and Pages over a sandbox tree with conditional and range headers. "
+    "Normalised observations must be equal; only the ASGI event-stream 'connection' header is sanctioned.",
+    "Unique request header names without underscores; valid UTF-8 paths; both sides draw the same byteranges boundary (PRNG re-seeded); Set-Cookie expiry dates masked; what was emitted before an escaping exception is not compared here.")
